@@ -473,7 +473,7 @@ def capture_restore(ctx):
     return _emit(d)
 
 
-@rule("STATE-SAVE-RESTORE", ["C03", "C19", "C01", "C04"], floor=3)
+@rule("STATE-SAVE-RESTORE", ["C03", "C19", "C01", "C04", "C05"], floor=3)
 def state_save_restore(ctx):
     """ReMatcher::capture_state() hands out a copy of the *whole* capture state (every group's start and end, and
     the group count), and ReMatcher::reset_state(s) replaces the whole capture state by s.  A restore that copies
